@@ -122,3 +122,23 @@ Proof. exact queue_window_update_legal. Qed.
 Example replenish_legal_nonvacuous :
   queue_window_update 3 [(1, 10); (3, 2147483000)] 3 70000 = [(1, 10); (3, 2147483647)].
 Proof. vm_compute. reflexivity. Qed.
+
+(** Known finding (open): [start_stream] attaches a stream with whatever window
+    the shared [Stream] object carries ([w]); nothing resets it to the backend
+    connection's [init_win].  When [w] is larger (an H2 client that announced a
+    large window) the write pass can exceed what the backend granted that stream:
+    the theorem [never_over_window] is about the windows sozu holds, so the
+    peer-side statement needs [w <= init_win]; this is the witness without it. *)
+Example start_stream_window_refuted :
+  exists c w chunks,
+    init_win c = 65535 /\ cwin c = 1000000 /\
+    let '(c', _) := start_stream c w chunks in
+    match write_pass 100 c' with
+    | Some (_, out) => exists s n, In (s, n) out /\ 65535 < fold_right Z.add 0 (map snd out)
+    | None => False
+    end.
+Proof.
+  exists (mkconn 1000000 65535 16384 100 0 true [] false), 6291456, [200000].
+  split; [reflexivity|]. split; [reflexivity|].
+  vm_compute. exists 1, 16384. split; [left; reflexivity|reflexivity].
+Qed.
